@@ -1141,3 +1141,67 @@ Definition op_full_eqb (a b : operation) : bool := op_core_eqb a b && str_eqb (o
 Definition pair_ok := pair_ok_gen op_core_eqb.
 Definition coherent := coherent_gen op_core_eqb.
 Definition coherent_strict := coherent_gen op_full_eqb.
+
+(* ------------------------------------------------------------------ security-derived parameters: specification helpers
+   (added after the seeded regression C08_c: the already-defined test of process_definitions is by (name, location)) *)
+(* security.py:49 _get_active_definitions: the definitions whose key occurs in the requirements of the operation *)
+Definition active_definitions (v : version) (doc raw : json) : res (list json) :=
+  do defs <- security_definitions v doc;
+  do reqs <- security_requirements doc raw;
+  do kvs <- py_items defs;
+  Val (map snd (filter (fun kv => existsb (py_eq (JStr (fst kv))) reqs) kvs)).
+
+Definition loc_eqb (a b : loc) : bool :=
+  match a, b with
+  | LPath, LPath | LHeader, LHeader | LCookie, LCookie | LQuery, LQuery | LBody, LBody => true
+  | _, _ => false
+  end.
+
+(* the container add_parameter puts a parameter in (none for an unknown location) *)
+Definition goes_to (c : loc) (p : param) : bool :=
+  match p_location p with
+  | Val l => match loc_of l with Some c' => loc_eqb c c' | None => false end
+  | Raise _ => false
+  end.
+
+(* the parameters declared for the operation (operation level first, then path level) that live in container c *)
+Definition declared_in (c : loc) (params : list param) : list param := filter (goes_to c) params.
+
+(* what is observed: the names held by each of the four non-body containers, in order, duplicates kept *)
+Definition container_names (o : operation) (c : loc) : res (list json) := map_res p_name (container o c).
+Definition KEY_LOCS : list loc := [LPath; LHeader; LCookie; LQuery].
+Definition op_keys (o : operation) : list (res (list json)) := map (container_names o) KEY_LOCS.
+Definition fresh_keys (v : version) (doc : json) (a : access) : res (list (res (list json))) :=
+  match fresh v doc a with
+  | ROp (Val o) => Val (op_keys o)
+  | ROp (Raise e) => Raise e
+  | RIter _ => Raise EOther
+  end.
+
+(* an active apiKey definition d asks for the key (name n, container c) *)
+Definition api_key_of (d : json) : option (json * loc) :=
+  match py_item d k_type, py_get d k_name, py_get d k_in with
+  | Val ty, Val (Some n), Val (Some l) =>
+      if json_eqb ty (JStr s_apiKey) && negb (json_eqb n JNull)
+      then match loc_of l with Some c => Some (n, c) | None => None end
+      else None
+  | _, _, _ => None
+  end.
+
+(* executable form of the conclusion of C08_security_parameters_effective for one built operation:
+   every key an active apiKey definition asks for is held by ITS container, whatever the other containers hold *)
+Definition security_keys_present (active : list json) (o : operation) : bool :=
+  forallb (fun d => match api_key_of d with
+                    | Some (n, c) => match set_get (container o c) n with Val (Some _) => true | _ => false end
+                    | None => true
+                    end) active.
+
+(* the same conclusion evaluated on what the IMPLEMENTATION holds: the parameter definitions found in the four
+   containers of a real APIOperation (rendered by the harness), against the active definitions the model derives
+   from the document *)
+Definition observed_op (raw : json) (pp hh cc qq : list json) : operation :=
+  {| o_path := []; o_method := []; o_raw := raw; o_resolved := raw; o_scope := [];
+     o_pathp := map PParam pp; o_headers := map PParam hh; o_cookies := map PParam cc; o_query := map PParam qq; o_body := [] |}.
+Definition observed_keys_present (v : version) (doc raw : json) (pp hh cc qq : list json) : res bool :=
+  do active <- active_definitions v doc raw;
+  Val (security_keys_present active (observed_op raw pp hh cc qq)).
